@@ -18,18 +18,20 @@ from mc import common
 R = common.bootstrap()
 from mc import hist as H, world as W  # noqa: E402
 
+W.install_virtual_time()   # the rate-limit dimension sleeps in virtual time
+
 PID = 'C01'
 
 SIZES = [0, 1, 3, 4, 5, 7, 8, 9, 12, 15, 16, 17, 24, 25]
 SIZES_R = [0, 1, 4, 7, 8, 9, 16, 17, 25]
 NAMES = ['a', 'sub/b', 'é', 'n\udcff', 'sp ace']   # \udcff = byte 0xFF surrogate-escaped (non-UTF-8 name)
 ARGS = ['files', 'dir', 'dir+file', 'file-twice', 'symlink-arg', 'dir-with-symlink', 'dir-twice', 'subdir+dir']
-CHUNKERS = [(4, 8), (1, 4), (5, 10), (8, 8), (4, 64)]
+CHUNKERS = [(4, 8), (1, 4), (5, 10), (8, 8), (4, 64), (4, 9), (16, 16), (1, 1), (3, 7)]
 CIPHERS = [None, {'name': 'aes_gcm', 'key_bits': 128}, {'name': 'aes_gcm', 'key_bits': 256}, {'name': 'chacha20_poly1305'}]
 HASHES = [{'name': 'blake2b', 'length': 64}, {'name': 'blake2b', 'length': 20}, {'name': 'sha2', 'bits': 256},
           {'name': 'sha3', 'bits': 384}]
 PRE = ['none', 'longer', 'shorter', 'same-length', 'elsewhere']
-DEFAULT = {'N': 2, 'chunker': (4, 8), 'cipher': None, 'hash': HASHES[0], 'pre': 'none', 'args': 'dir'}
+DEFAULT = {'N': 2, 'chunker': (4, 8), 'cipher': None, 'hash': HASHES[0], 'pre': 'none', 'args': 'dir', 'rate': None}
 
 
 def content(kind, size, other=None):
@@ -64,6 +66,9 @@ def trees(t):
         two.append([('a', content('zeros', s1)), ('b2', content('zeros', s1))])
     out += two
     if t == 'thorough':
+        for s in list(range(0, 34)) + [40, 63, 64, 65, 127, 128, 129]:
+            for k in ('zeros', 'ramp'):
+                out.append([('a', content(k, s))])
         for s1, s2, s3 in itertools.product([0, 1, 8, 9, 17], repeat=3):
             a = content('ramp', s1)
             out.append([('a', a), ('sub/b', content('ramp2', s2)), ('sub/c', content('suffix', min(s3, s1), a))])
@@ -210,11 +215,11 @@ def run_case(case):
     async def go():
         repo = await W.a_open(store, user, N=cfg['N'])
         with W.captured():
-            snap = await repo.snapshot(paths=paths)
+            snap = await repo.snapshot(paths=paths, rate_limit=cfg.get('rate'))
             await repo.close()
         repo2 = await W.a_open(W.Store(store.o), user, N=cfg['N'])
         with W.captured():
-            res = await repo2.restore(path=target)
+            res = await repo2.restore(path=target, rate_limit=cfg.get('rate'))
             await repo2.close()
         return snap, res
 
@@ -302,6 +307,8 @@ def plan(t):
             devs.append({'cipher': ci, 'hash': ha})
     for p in PRE[1:]:
         devs.append({'pre': p})
+    for rate in (1, 64, 1000):
+        devs.append({'rate': rate})     # bandwidth limit: the data path goes through the limiter and progress wrappers
     arglists = ARGS if t == 'thorough' else ['dir', 'files', 'file-twice', 'dir-with-symlink']
     for d in devs:
         for ti, tree in enumerate(red):
